@@ -164,7 +164,7 @@ Theorem C11_to_f64_dot_correctly_rounded : forall neg fs,
 Proof. exact to_f64_dot_correctly_rounded. Qed.
 
 (* for digit integers >= 2^53 the value is sign * RNE(RNE(i) / 10^k): two roundings (<= 2 ulp; the ulp bound
-   itself is NOT proved here, it is carried by the oracle stream "fractions") *)
+   itself is proved in Props/C11_ulp.v (C11_to_f64_2ulp)) *)
 Theorem C11_to_f64_two_roundings_partial : forall neg i k,
   i < U64_LIM -> k <= 22 ->
   is_finite 53 1024 (frac_value neg i k) = true /\
